@@ -1,3 +1,2 @@
-import FluteModel.Drv.Util
--- stub: engine `benc` not built yet
-def main : IO Unit := Flute.Drv.runDriver () (fun _ _ => ((), "bad-op"))
+import FluteModel.Drv.Benc
+def main : IO Unit := Flute.Drv.runDriver (none : Option Flute.Drv.Benc.St) Flute.Drv.Benc.step
